@@ -14,11 +14,18 @@ type Options struct {
 	Maint       int `json:"maint"`        // data.maintenance-interval (nflog + silences GC/snapshot)
 	StartDelay  int `json:"start_delay"`  // dispatch.start-delay
 	PeerTimeout int `json:"peer_timeout"` // cluster.peer-timeout
+	// Settle (cluster mode): the gossip of an instance counts as settled that many seconds after its process started
+	// (cluster.Peer.WaitReady blocks until then); flushes that begin earlier wait in the first pipeline stage, up to
+	// their deadline. For the oracles it acts like a longer dispatch start delay.
+	Settle int `json:"settle,omitempty"`
 	// GroupLimit: run the dispatcher with an aggregation-group limit that can never legitimately bind: the number of
 	// distinct (route, group labels) pairs the scenario's configurations and label sets can produce, plus two
 	// (the counter may transiently run ahead of the map by the groups a maintenance sweep is just removing)
 	GroupLimit bool `json:"group_limit,omitempty"`
 }
+
+// EffDelay: seconds after a process start before which no delivery is expected of it.
+func (o Options) EffDelay() int { return max(o.StartDelay, o.Settle) }
 
 // GetFlags are the query parameters of a filtered GET /alerts.
 type GetFlags struct {
